@@ -132,9 +132,7 @@ Inductive wf : term -> Prop :=
 (* ------------------------------------------------------------------ comparison functions of the correspondence *)
 Definition opt_term_eqb (o : option term) (t : term) : bool :=
   match o with Some t' => term_eqb t' t | None => false end.
-(* (ii) the implementation read the reference writer's text [ref_text] as the term: checked on the implementation side,
-   here we check that ref_text IS the reference text; (i) the reference reader reads the implementation's
-   ignore_ops/quoted text to the term *)
-Definition check_cross (t : term) (ref_text impl_text : list N) : bool :=
-  text_eq (write_canonical_ref t) ref_text && opt_term_eqb (read_canonical_ref impl_text) t
-  && opt_term_eqb (read_canonical_ref ref_text) t.
+(* the implementation's ignore_ops/quoted text IS the reference text (so that the implementation reading it back is the
+   implementation reading the reference writer's text), and the reference reader reads it to the term *)
+Definition check_cross (t : term) (impl_text : list N) : bool :=
+  text_eq (write_canonical_ref t) impl_text && opt_term_eqb (read_canonical_ref impl_text) t.
